@@ -467,6 +467,8 @@ func c16SQL(c Case, arity int) [][][]string {
 				junk := map[string]interface{}{"pid": -7, "grp": 1, "t0": "junk", "id": -9}
 				row["meta"], row["m"], row["k"] = junk, junk, "junk"
 				row["s"] = map[string]interface{}{"id": -9, "k0": "junk"}
+				// … and like the selected table columns: an unmatched LEFT JOIN row reads NULL, never the payload
+				row["pid"], row["grp"] = -5, 1
 			}
 			res, err := s.EmitSync(row)
 			switch {
